@@ -43,7 +43,7 @@ PROBES = [
     "{N} or b", "{N} if b else c", "{N}[b]", "{N} -l; {N} | b", "{N} @ b", "{N} ^ b", "{N} -l if b else c", "({N} -l)", "{N} % b", "~{N}", "-{N}",
     "{N} -l and b -l", "{N} != b", "{N} in b", "{N} is b",
 ]
-BUILTIN_NAMES = ["id", "zip", "type", "len", "print", "dir", "max", "min", "sum", "set", "list", "help", "exit", "open", "format", "hash", "iter",
+BUILTIN_NAMES = ["id", "zip", "type", "len", "print", "dir", "max", "min", "sum", "set", "list", "help", "open", "format", "hash", "iter",
                  "next", "vars", "sorted", "filter", "map", "all", "any", "bin", "hex", "oct", "ord", "chr", "pow", "round", "input", "compile", "exec"]
 BINDERS = ["builtin", "import_dotted", "assign", "tuple", "star", "chain", "annassign", "import_as", "from_import_as", "import_plain", "def", "class", "for", "for_after",
            "with", "with_after", "except", "walrus", "walrus_if", "global", "param", "param_posonly", "param_kwonly", "param_default",
@@ -124,9 +124,11 @@ def _setup(scratch):
     return _state
 
 
-def fresh_ns():
+def fresh_ns(preseed=None):
     ns = {}
     exec(PRELUDE, ns)
+    for k, v in (preseed or {}).items():
+        ns[k] = ns["L"](v)          # a name bound in the session by an earlier input
     return ns
 
 
@@ -280,12 +282,12 @@ def _has_subproc(tree):
     return False
 
 
-def run_both(src):
+def run_both(src, preseed=None):
     """-> dict with tree verdicts and run outcomes for xonsh and CPython."""
     st = _state
     ex, rec = st["ex"], st["rec"]
     out = {}
-    ns_c = fresh_ns()
+    ns_c = fresh_ns(preseed)
     old_err, old_out = sys.stderr, sys.stdout
     sys.stderr, sys.stdout = io.StringIO(), io.StringIO()
     try:
@@ -297,10 +299,12 @@ def run_both(src):
     finally:
         sys.stderr, sys.stdout = old_err, old_out
     out["c_log"] = list(ns_c["LOG"])
-    ns_x = fresh_ns()
-    ctx = set(dir(builtins)) | set(ns_x)
+    ns_x = fresh_ns(preseed)
+    user_names = set(ns_x)
+    ctx = set(dir(builtins)) | user_names
     try:
-        tree = ex.parse(src, ctx)
+        # the way Execer.compile calls it: session names are passed as user_names
+        tree = ex.parse(src, ctx, user_names=user_names)
         out["x_parse_exc"] = None
     except SyntaxError as e:
         tree = None
@@ -311,6 +315,11 @@ def run_both(src):
     out["subproc_in_tree"] = bool(tree is not None and _has_subproc(tree))
     if tree is not None and not out["subproc_in_tree"]:
         ccan = astcanon.root_canon(ast.parse(src))
+        # the builtin_cmd wrapper is inert only for names that are *not* shadowed by a session variable
+        shadowed = {n.args[0].value for n in ast.walk(tree)
+                    if isinstance(n, ast.Call) and isinstance(n.func, ast.Attribute) and n.func.attr == "builtin_cmd"
+                    and n.args and isinstance(n.args[0], ast.Constant) and n.args[0].value in (preseed or {})}
+        out["wrapped_shadowed"] = sorted(shadowed)
         xcan = astcanon.root_canon(_unwrap(tree))
         out["tree_diff"] = None if ccan == xcan else astcanon.first_diff(ccan, xcan)
     rec.calls.clear()
@@ -342,10 +351,13 @@ def classify(case, out):
 
 def check_bound(case):
     src = case["src"]
-    out = run_both(src)
+    out = run_both(src, case.get("preseed"))
     if out["c_exc"] == "NameError" or out["c_exc"] == "UnboundLocalError":
         return "selfcheck", None
     problems = []
+    if out.get("wrapped_shadowed"):
+        problems.append(("builtin-instead-of-variable", "the session variable(s) %s shadow builtins but the bare name is compiled to "
+                         "__xonsh__.builtin_cmd(..), i.e. the builtin" % out["wrapped_shadowed"]))
     if out["x_parse_exc"]:
         problems.append(("rejected", "Execer.parse raised %s" % out["x_parse_exc"]))
     elif out["subproc_in_tree"]:
@@ -467,6 +479,42 @@ def gen_case(rnd):
         if N in dir(builtins):
             return None          # deleting a shadowing binding leaves the builtin bound
         return {"family": "del", "src": "\n".join(unit) + "\n", "binder": binder, "scope": scope, "probe": probe, "name": N}
+    if rnd.randrange(2) == 0:
+        # shadowing: NAME bound in an outer scope, an inner scope binds and deletes its *own* NAME; the outer
+        # binding is untouched, so a later outer-scope probe is still Python
+        probe = PROBES[rnd.randrange(len(PROBES))].replace("{N}", N)
+        inner = ["function", "class", "nested"][rnd.randrange(3)]
+        outer = ["module", "session", "function"][rnd.randrange(3)]
+        v = "L(%r)" % N
+        if inner == "function":
+            blk = ["def g8():", "    " + N + " = L('inner')", "    del " + N, "g8()"]
+        elif inner == "class":
+            blk = ["class C8:", "    " + N + " = L('inner')", "    del " + N]
+        else:
+            blk = ["def g8():", "    def g7():", "        " + N + " = L('inner')", "        del " + N, "    g7()", "g8()"]
+        if outer == "module":
+            lines = [N + " = " + v] + blk + [probe]
+            pre = {}
+        elif outer == "session":
+            lines = blk + [probe]
+            pre = {N: N}
+        else:
+            lines = ["def f1():", "    " + N + " = " + v] + _ind(blk) + ["    " + probe, "f1()"]
+            pre = {}
+        return {"family": "bound", "src": "\n".join(lines) + "\n", "binder": "shadow-del:" + outer, "scope": "inner:" + inner,
+                "probes": [probe], "name": N, "preseed": pre}
+    if rnd.randrange(2) == 0:
+        # a session variable (bound by an earlier input) that shadows a builtin: Python's meaning is the variable
+        N = BUILTIN_NAMES[rnd.randrange(len(BUILTIN_NAMES))]
+        probes = [["{N}", "{N} -l", "{N} | b", "{N}(b)", "x9 = {N}", "{N} and b"][rnd.randrange(6)].replace("{N}", N) for _ in range(1 + rnd.randrange(2))]
+        scope = ["module", "function", "if_block"][rnd.randrange(3)]
+        unit = list(probes)
+        if scope == "function":
+            unit = ["def f1():"] + _ind(unit) + ["f1()"]
+        elif scope == "if_block":
+            unit = ["if True:"] + _ind(unit)
+        return {"family": "bound", "src": "\n".join(unit) + "\n", "binder": "session-shadows-builtin", "scope": scope, "probes": probes,
+                "name": N, "preseed": {N: N}}
     k = 1 + rnd.randrange(3)
     first = ["b -c", "l | b", "x9 = b - n", "print(b -c, file=open('/dev/null','w'))"]
     lines = [first[rnd.randrange(len(first))] for _ in range(k)]
